@@ -337,7 +337,9 @@ static void gen_cfg(sk_rng* r, int alloc_mode)
 	sk_bytes(r, c->pwd[0], 40);
 	memcpy(c->pwd[1], c->pwd[0], 40);
 	/* inconsistent configuration of the two sides */
-	c->mismatch = (!alloc_mode && sk_chance(r, 1, 8)) ? (int)(1 + sk_below(r, 3)) : 0;
+	c->mismatch = (!alloc_mode && sk_chance(r, 1, 8)) ? (int)(1 + sk_below(r, 4)) : 0;
+	if (c->mismatch == 4 && (c->proto != P_BMQV || c->cert_pref[0] == 0))
+		c->mismatch = 2; /* certificate data enters the key derivation in BMQV only */
 	if (c->mismatch == 3 && c->proto != P_BMQV && c->proto != P_BAUTH)
 		c->mismatch = 2; /* certificates travel inside BSTS messages; BPACE has none */
 }
@@ -391,6 +393,16 @@ static void setup_party(int s, uint64_t tape_seed, int apply_mismatch)
 		case 3:
 			if (s == 1 && (c->proto == P_BMQV || c->proto == P_BAUTH))
 				p->peer = PT[1].cert; /* B was given the wrong certificate for A (its own) */
+			break;
+		case 4:
+			if (s == 1)
+			{
+				/* B holds another certificate for A: same public key, different data */
+				static octet other_cert[1400];
+				memcpy(other_cert, c->certdata[0], c->certlen[0]);
+				other_cert[sk_below(&p->tape.r, (uint32_t)c->cert_pref[0])] ^= 1;
+				p->peer.data = other_cert;
+			}
 			break;
 		}
 }
